@@ -7,6 +7,8 @@
 import DecModel.Judge
 import DecModel.HkGen
 import DecGen.Api
+import DecModel.RoundHelpers
+import DecModel.PackHelpers
 
 namespace Dec
 
@@ -25,7 +27,7 @@ def wordsOf (vs : List Val) : Option (List Nat) :=
 
 /-- hand-written helper models: name, mode, incoming flags, argument words ↦ result words and outgoing flags
 (`none`: no model for that name, or input outside the domain on which the model claims to mirror the code) -/
-def hkModels : List (String → Mode → Nat → List Nat → Option (List Nat × Nat)) := []
+def hkModels : List (String → Mode → Nat → List Nat → Option (List Nat × Nat)) := [hkRound, hkPack]
 
 def showWords (ws : List Nat) : String := " ".intercalate (ws.map fun w => "G" ++ String.ofList (Nat.toDigits 16 w))
 
